@@ -14,8 +14,10 @@ import (
 	"go.temporal.io/server/client/history"
 	servercommon "go.temporal.io/server/common"
 	"google.golang.org/grpc"
+	"google.golang.org/grpc/codes"
 	"google.golang.org/grpc/credentials/insecure"
 	"google.golang.org/grpc/metadata"
+	"google.golang.org/grpc/status"
 
 	"github.com/temporalio/s2s-proxy/config"
 	"github.com/temporalio/s2s-proxy/proxy"
@@ -40,9 +42,21 @@ type fakeCluster struct {
 	shards int32
 	mu     sync.Mutex
 	opens  []metadata.MD
+	// failDescribe: number of coming DescribeCluster calls that fail with Unavailable (a
+	// transient fault of the serving cluster or of the connection to it)
+	failDescribe int
 }
 
 func (f *fakeCluster) DescribeCluster(ctx context.Context, in *adminservice.DescribeClusterRequest) (*adminservice.DescribeClusterResponse, error) {
+	f.mu.Lock()
+	fail := f.failDescribe > 0
+	if fail {
+		f.failDescribe--
+	}
+	f.mu.Unlock()
+	if fail {
+		return nil, status.Error(codes.Unavailable, "transport is closing")
+	}
 	return &adminservice.DescribeClusterResponse{ClusterName: f.name, HistoryShardCount: f.shards, FailoverVersionIncrement: 10, InitialFailoverVersion: int64(f.id)}, nil
 }
 
@@ -101,6 +115,8 @@ func bigLCM(a, b int32) int64 {
 // RunWhole executes one WHOLE run.
 func RunWhole(s *simrt.Sim) *Result {
 	res := &Result{World: "WHOLE", Profile: "C07"}
+	faults := map[string]int{}
+	defer func() { res.Faults = faults }()
 	var viol []Violation
 	violate := func(clause, format string, args ...any) {
 		if len(viol) < 20 {
@@ -188,6 +204,13 @@ func RunWhole(s *simrt.Sim) *Result {
 		before := 0
 		serving.mu.Lock()
 		before = len(serving.opens)
+		if p.Kind == "describe" {
+			// transient failures of the forwarded call: none, one or two in a row
+			if k := s.Draw(4); k >= 2 {
+				serving.failDescribe += k - 1
+				faults["describe-unavailable"] += k - 1
+			}
+		}
 		serving.mu.Unlock()
 		w.pending++
 		s.Spawn(fmt.Sprintf("probe%d", i), func() {
@@ -195,8 +218,17 @@ func RunWhole(s *simrt.Sim) *Result {
 			ctx, cancel := context.WithTimeout(context.Background(), 20*time.Second)
 			defer cancel()
 			if p.Kind == "describe" {
-				resp, err := client.DescribeCluster(ctx, &adminservice.DescribeClusterRequest{})
-				simrt.AfterBlock()
+				// the caller (a Temporal cluster refreshing its metadata) tries again after a failure;
+				// whatever answer it finally gets must carry the LCM
+				var resp *adminservice.DescribeClusterResponse
+				var err error
+				for attempt := 0; attempt < 4; attempt++ {
+					resp, err = client.DescribeCluster(ctx, &adminservice.DescribeClusterRequest{})
+					simrt.AfterBlock()
+					if err == nil {
+						break
+					}
+				}
 				p.Done = true
 				if err != nil {
 					p.Err = err.Error()
